@@ -186,14 +186,18 @@ Definition code_at (cf : cfg) (alphabet : list Z) (len : nat) (n : Z) : Z :=
 
 (** Reading many expected values into Coq is slow, so the comparison is done
     on fingerprints: both sides evaluate every case, and compare, per block of
-    cases, the polynomial fingerprints sum (code_i + 1) r^(k-i) modulo two
-    Mersenne primes for bases [r1], [r2] drawn at random by the harness.  A
+    cases, the polynomial fingerprints sum (code_i + 1) r^(k-i) modulo the two
+    Mersenne primes 2^31 - 1 and 2^61 - 1 for bases [r1], [r2] drawn at random by the harness.  A
     block whose fingerprints differ is then listed exactly ([sweep_codes],
     [rand_outcomes]). *)
-Definition fp_p1 : Z := 2305843009213693951.               (* 2^61 - 1 *)
-Definition fp_p2 : Z := 618970019642690137449562111.       (* 2^89 - 1 *)
+Definition fold_mersenne (k x : Z) : Z :=
+  let p := 2 ^ k - 1 in
+  let y := Z.land x p + Z.shiftr x k in
+  Z.land y p + Z.shiftr y k.
+(** Residues modulo 2^31 - 1 and 2^61 - 1, not necessarily canonical (the
+    harness computes the same function). *)
 Definition fp_step (r1 r2 : Z) (acc : Z * Z) (code : Z) : Z * Z :=
-  ((fst acc * r1 + code + 1) mod fp_p1, (snd acc * r2 + code + 1) mod fp_p2).
+  (fold_mersenne 31 (fst acc * r1 + code + 1), fold_mersenne 61 (snd acc * r2 + code + 1)).
 
 Fixpoint sweep_fp (cf : cfg) (alphabet : list Z) (len : nat) (r1 r2 : Z) (count : nat) (n : Z)
          (acc : Z * Z) : Z * Z :=
@@ -235,7 +239,7 @@ Fixpoint rand_fp (cf : cfg) (alphabet : list Z) (r1 r2 : Z) (count : nat) (x : Z
   | S k =>
     let x' := lcg x in
     let '(len, o) := rand_case cf alphabet x' in
-    rand_fp cf alphabet r1 r2 k x' (fp_step r1 r2 acc (outcome_code alphabet len o))
+    rand_fp cf alphabet r1 r2 k x' (fp_step r1 r2 acc (outcome_code alphabet len o mod (2 ^ 61 - 1)))
   end.
 (** [blocks]: (generator state before the block, count). *)
 Definition rand_fps (cf : cfg) (alphabet : list Z) (r1 r2 : Z) (blocks : list (Z * Z)) : list (Z * Z) :=
